@@ -138,7 +138,7 @@ func CloseWindow(args []string) {
 				if err == nil {
 					return "admitted: " + o
 				}
-				if strings.Contains(o, "already locked by the process pid "+strconv.Itoa(os.Getpid())) {
+				if namesPid(o, os.Getpid()) {
 					return "refused"
 				}
 				return "failed otherwise: " + o
